@@ -655,8 +655,20 @@ def install(it):
     class _Generic:
         def __class_getitem__(cls, item):
             return cls
+    class _LiteralArgs:
+        def __init__(self, args):
+            self.args = args
+
+    class _Literal:
+        def sym_getitem(self, it, key):
+            return _LiteralArgs(tuple(key) if isinstance(key, tuple) else (key,))
+
+    def _get_args(it, t):
+        return t.args if isinstance(t, _LiteralArgs) else ()
     it.stub_modules["typing"] = Namespace("typing", {"Generic": _Generic, "TypeVar": Native(lambda it, *a, **k: Opaque("TypeVar"), name="TypeVar"),
-                                                     "TYPE_CHECKING": False},
+                                                     "TYPE_CHECKING": False, "Literal": _Literal(),
+                                                     "get_args": Native(_get_args, name="get_args"),
+                                                     "cast": Native(lambda it, t, v: v, name="cast")},
                                           default=lambda attr: Opaque(f"typing.{attr}"))
     import abc as _abc
     it.stub_modules["abc"] = Namespace("abc", {"ABC": _abc.ABC, "abstractmethod": Native(lambda it, f: f, name="abstractmethod"),
